@@ -31,6 +31,65 @@ def _ctl():
 
 
 # ------------------------------------------------------------------------------------------ implementation run
+LOSS_REPS = ("f64", "f32", "i64", "i32", "list", "tuple", "view", "revview", "readonly", "col", "0d", "object", "reuse")
+ACT_REPS = ("int", "int64", "int32", "uint8", "0d")
+
+
+def as_action(a, rep):
+    """The agent's choice in the representation a user-written agent may return (all accepted by Discrete.contains)."""
+    if rep == "int64":
+        return np.int64(a)
+    if rep == "int32":
+        return np.int32(a)
+    if rep == "uint8":
+        return np.uint8(a)
+    if rep == "0d":
+        return np.array(a)
+    return a
+
+
+def as_losses(vals, rep, buf):
+    """The losses of one batch in the representation `rep`; returns (object passed to update, array to scribble on afterwards)."""
+    if rep == "f32":
+        a = np.array(vals, dtype=np.float32)
+    elif rep == "i64":
+        a = np.array([int(v) for v in vals], dtype=np.int64)
+    elif rep == "i32":
+        a = np.array([int(v) for v in vals], dtype=np.int32)
+    elif rep == "list":
+        return list(vals), None
+    elif rep == "tuple":
+        return tuple(vals), None
+    elif rep == "view":
+        big = np.full(2 * len(vals) + 1, -7.0)
+        big[1::2] = vals
+        a = big[1::2]
+    elif rep == "revview":
+        a = np.array(list(vals)[::-1], dtype=float)[::-1]
+    elif rep == "readonly":
+        a = np.array(vals, dtype=float)
+        a.setflags(write=False)
+        return a, None
+    elif rep == "col":
+        a = np.array(vals, dtype=float).reshape(-1, 1)
+    elif rep == "0d":
+        a = np.array(float(vals[0]))
+    elif rep == "object":
+        a = np.array(list(vals), dtype=object)
+    elif rep == "reuse":  # one buffer for all the batches of the run, overwritten in place by the caller
+        if buf.get("a") is None or buf["a"].shape[0] != len(vals):
+            buf["a"] = np.zeros(len(vals))
+        buf["a"][:] = vals
+        return buf["a"], None
+    else:
+        a = np.array(vals, dtype=float)
+    return a, a
+
+
+def batch_values(cfg, b):
+    return cfg["batches"][b] if cfg.get("batches") else [cfg["losses"][b]]
+
+
 def _build(cfg):
     """Real scheduler + env + logging agent with the instrumented queues/flag/thread (no repo file is edited)."""
     from black_it.samplers.halton import HaltonSampler
@@ -51,7 +110,7 @@ def _build(cfg):
             a = self.script[self.k % len(self.script)]
             self.k += 1
             log["policy"].append(a)
-            return a
+            return as_action(a, cfg["agent"].get("act_rep", "int"))
 
         def learn(self, state, action, reward, next_state):  # noqa: ARG002
             log["learn"].append((int(action), float(reward), _ctl().last_src))
@@ -59,10 +118,12 @@ def _build(cfg):
     class Draws:
         """Stands for numpy's Generator inside MABEpsilonGreedy.policy: the recorded draws are replayed."""
 
-        def __init__(self, draws, eps):
-            self.draws, self.k, self.eps = draws, 0, eps
+        def __init__(self, draws, eps, us=None):
+            self.draws, self.k, self.eps, self.us = draws, 0, eps, us
 
         def random(self):
+            if self.us:  # recorded uniform draws: the implementation compares them with the eps in force
+                return self.us[self.k % len(self.us)]
             explore = self.draws[self.k % len(self.draws)][0]
             return 0.0 if explore else 1.0
 
@@ -70,9 +131,14 @@ def _build(cfg):
             return [options[self.draws[self.k % len(self.draws)][1] % len(options)]]
 
     class LoggedGreedy(MABEpsilonGreedy):
-        def __init__(self, n, alpha, init, draws):
-            super().__init__(n, alpha, 0.5, initial_values=init, random_state=0)
-            self._draws = Draws(draws, 0.5)
+        def __init__(self, n, alpha, init, draws, eps=0.5, us=None, assign_after=False):
+            if assign_after:
+                # public attributes reassigned after construction: the values in force are the assigned ones
+                super().__init__(n, 0.125, 0.875, initial_values=7.0, random_state=0)
+                self.alpha, self.eps, self.Q = alpha, eps, [init] * n
+            else:
+                super().__init__(n, alpha, eps, initial_values=init, random_state=0)
+            self._draws = Draws(draws, eps, us)
 
         @property
         def random_generator(self):
@@ -104,7 +170,12 @@ def _build(cfg):
             self.__dict__["_st"] = v
 
     nsam, hal = cfg["nsam"], cfg["halton"]
-    samplers = [HaltonSampler(batch_size=1) if i == hal else RandomUniformSampler(batch_size=1) for i in range(nsam)]
+    if cfg.get("halton_in", True):
+        samplers = [HaltonSampler(batch_size=1) if i == hal else RandomUniformSampler(batch_size=1) for i in range(nsam)]
+    else:  # no Halton sampler in the caller's line-up: the scheduler appends one (index nsam - 1 = cfg["halton"])
+        samplers = [RandomUniformSampler(batch_size=1) for _ in range(nsam - 1)]
+    if cfg.get("lineup", "list") == "tuple":
+        samplers = tuple(samplers)
     env = MABCalibrationEnv(nsam)
     env._in_queue = VQueue(_ctl, "outcome")  # noqa: SLF001
     env._out_queue = VQueue(_ctl, "action")  # noqa: SLF001
@@ -112,10 +183,19 @@ def _build(cfg):
     if ag["kind"] == "script":
         agent = ScriptAgent(ag["script"])
     else:
-        agent = LoggedGreedy(nsam, ag["alpha"], ag["init"], ag["draws"])
+        agent = LoggedGreedy(nsam, ag["alpha"], ag["init"], ag["draws"], ag.get("eps", 0.5), ag.get("us"), ag.get("assign_after", False))
     rlmod.threading = make_shim(_ctl)
-    sch = VRL(samplers, agent, env, random_state=0)
-    return sch, env, agent, log, rlmod
+
+    def make_scheduler():
+        """A (further) scheduler on the same line-up, agent and environment; its construction is not a synchronisation point."""
+        saved, _HOLDER["ctl"] = _HOLDER["ctl"], None
+        try:
+            return VRL(samplers, agent, env, random_state=0)
+        finally:
+            _HOLDER["ctl"] = saved
+
+    sch = make_scheduler()
+    return sch, env, agent, log, rlmod, make_scheduler
 
 
 class InjectedBatchFault(Exception):
@@ -123,21 +203,85 @@ class InjectedBatchFault(Exception):
 
 
 def run_schedule(cfg, prefix, max_steps=400, lenient=False):
-    """One controlled run; returns the observation dict (schedule actually followed, enabled masks, logs)."""
+    """One controlled run; returns the observation dict (schedule actually followed, enabled masks, logs).
+
+    Optional keys of cfg (generator sweep, round 4): `batches` (the losses of every batch, several per batch), `loss_rep`
+    (representation of the loss object handed to update()), `events` = [[session index, name], ...] run BEFORE that session
+    (index len(sessions) = after the last): "reseed" (random_state reassigned), "bad_end" (end_session outside a session: has
+    to be rejected), "rebuild" (a further scheduler on the same line-up, agent and environment takes over), `spurious_start`
+    = [[session index, batch position], ...] (start_session inside a running session: has to be rejected)."""
     import threading as real_threading
 
     _HOLDER["ctl"] = None
-    sch, env, agent, log, rlmod = _build(cfg)
+    try:
+        sch, env, agent, log, rlmod, make_scheduler = _build(cfg)
+    except Exception as e:  # noqa: BLE001  the scheduler cannot even be constructed on this line-up
+        return {"sched": "", "masks": [], "ops": [], "final_mask": 0, "deadlock": False, "capped": False, "diverged": False,
+                "finished": False, "m_exc": f"constructing the scheduler: {type(e).__name__}: {e}", "a_exc": [],
+                "agent_alive_at_end": False, "unreleased_threads": 0, "executed": [], "learned": [], "policy": [],
+                "session_ends": [], "aq_end": [], "oq_end": [], "flag": True, "cbl": None, "best": None, "blocked": [],
+                "qvals": [], "counts": [], "rejects": [], "strip": [], "boots": [0], "spurious_started": False}
     ctl = Ctl(prefix, max_steps, lenient)
     _HOLDER["ctl"] = ctl
     executed, session_ends, m_exc = [], [], None
+    rejects, strip, boots = [], [], [0]
     b = 0
     faults = list(cfg.get("fault_at", []))      # a batch that raises after the sampler was designated (sampler / model / loss failure)
+    events = [tuple(e) for e in cfg.get("events", [])]
+    spur = [tuple(e) for e in cfg.get("spurious_start", [])]
+    rep, buf = cfg.get("loss_rep", "f64"), {}
+
+    def snap():
+        return {"aq": [int(x) for x, _ in env._out_queue.items],  # noqa: SLF001
+                "oq": [None if x is None else float(x[1]) for x, _ in env._in_queue.items],  # noqa: SLF001
+                "flag": bool(sch.__dict__["_st"]), "thread": id(sch._agent_thread)}  # noqa: SLF001
+
+    def rejected(kind, call, agent_exists):
+        """A request that the scheduler has to refuse with ValueError, leaving everything as it was."""
+        k0, before = len(ctl.sched), snap()
+        raised = None
+        ctl.force_m = True
+        try:
+            call()
+        except ValueError as e:
+            raised = f"ValueError: {e}"
+        finally:
+            ctl.force_m = False
+        k1, after = len(ctl.sched), snap()
+        mine = [k for k in range(k0, k1) if ctl.sched[k] == "M"]
+        m_ops = [ctl.ops[k] for k in mine]
+        moved = []
+        if m_ops != ["read:stopped"]:
+            moved.append(f"synchronisation operations of the calibration thread during the request: {m_ops}")
+        for key in ("flag", "thread") + (() if agent_exists else ("aq", "oq")):
+            if before[key] != after[key]:
+                moved.append(f"{key}: {before[key]} -> {after[key]}")
+        strip.extend(mine)
+        rejects.append({"kind": kind, "raised": raised, "moved": moved, "at_step": k0})
+
+    def run_events(si):
+        nonlocal sch
+        for i, name in events:
+            if i != si:
+                continue
+            if name == "reseed":
+                sch.random_state = 1000 + si
+            elif name == "bad_end":
+                rejected("end_session outside a session", sch.end_session, False)
+            elif name == "rebuild":
+                sch = make_scheduler()
+                boots.append(b)
+
     try:
-        for nb in cfg["sessions"]:
+        for si, nb in enumerate(cfg["sessions"]):
+            run_events(si)
             try:
                 with sch.session():
-                    for _ in range(nb):
+                    for pos in range(nb):
+                        if (si, pos) in spur:
+                            ctl.no_start = True
+                            rejected("start_session inside a session", sch.start_session, True)
+                            ctl.no_start = False
                         s = sch.get_next_sampler()
                         idx = [i for i, x in enumerate(sch.samplers) if x is s][0]
                         if faults and faults[0] == b:
@@ -145,7 +289,12 @@ def run_schedule(cfg, prefix, max_steps=400, lenient=False):
                             raise InjectedBatchFault(b)        # the session is closed by session()'s finally; the batch did not run
                         executed.append((b, idx))
                         ctl.cur_batch = b
-                        sch.update(b, np.array([[float(b)]]), np.array([cfg["losses"][b]]), None)
+                        vals = batch_values(cfg, b)
+                        lobj, scribble = as_losses(vals, rep, buf)
+                        params = np.arange(float(b), float(b) + len(vals)).reshape(-1, 1)
+                        sch.update(b, params, lobj, None)
+                        if scribble is not None:
+                            scribble[...] = -12345  # the caller reuses its array: the scheduler must not have kept a view of it
                         ctl.cur_batch = None
                         b += 1
             except InjectedBatchFault:
@@ -155,16 +304,18 @@ def run_schedule(cfg, prefix, max_steps=400, lenient=False):
                 "oq": [None if x is None else float(x[1]) for x, _ in env._in_queue.items],  # noqa: SLF001
                 "agent_alive": bool(sch._agent_thread is not None and sch._agent_thread.is_alive()),  # noqa: SLF001
             })
+        run_events(len(cfg["sessions"]))
     except Abort:
         pass
     except Exception as e:  # noqa: BLE001
         m_exc = f"{type(e).__name__}: {e}"
-    finished = len(session_ends) == len(cfg["sessions"]) and m_exc is None
+    finished = len(session_ends) == len(cfg["sessions"]) and m_exc is None and not ctl.spurious_started
     # threads of the scheduler that have not terminated when the calibration thread is done / stuck
     a_alive = bool(sch._agent_thread is not None and sch._agent_thread.is_alive())  # noqa: SLF001
     stuck = ctl.finish()
     _HOLDER["ctl"] = None
     rlmod.threading = real_threading
+    best = sch._best_loss  # noqa: SLF001
     obs = {
         "sched": "".join(ctl.sched), "masks": list(ctl.masks), "ops": list(ctl.ops), "final_mask": ctl.final_mask,
         "deadlock": ctl.deadlock, "capped": ctl.capped, "diverged": ctl.diverged, "finished": finished,
@@ -173,8 +324,12 @@ def run_schedule(cfg, prefix, max_steps=400, lenient=False):
         "session_ends": session_ends,
         "aq_end": [int(x) for x, _ in env._out_queue.items],  # noqa: SLF001
         "oq_end": [None if x is None else float(x[1]) for x, _ in env._in_queue.items],  # noqa: SLF001
-        "flag": bool(sch.__dict__["_st"]), "cbl": env._curr_best_loss, "best": sch._best_loss,  # noqa: SLF001
+        "flag": bool(sch.__dict__["_st"]), "cbl": None if env._curr_best_loss is None else float(env._curr_best_loss),  # noqa: SLF001
+        "best": None if best is None else float(best),
+        "best_type": type(best).__name__, "cbl_type": type(env._curr_best_loss).__name__,  # noqa: SLF001
         "blocked": ctl.blocked_at_end, "qvals": [float(x) for x in agent.Q] if hasattr(agent, "Q") else [],
+        "counts": [int(x) for x in agent.actions_count] if hasattr(agent, "actions_count") else [],
+        "rejects": rejects, "strip": sorted(strip), "boots": boots, "spurious_started": ctl.spurious_started,
     }
     return obs
 
@@ -204,33 +359,44 @@ OPCODE = {"read:stopped": 1, "write:stopped": 2, "start": 3, "get:action": 4, "p
 def _agent_lit(cfg):
     ag, n = cfg["agent"], cfg["nsam"]
     if ag["kind"] == "script":
-        return f"(mkag {clist([cnat(a) for a in ag['script']])} 0%nat false 0%Q [] [] {cnat(n)})"
+        return f"(mkag {clist([cnat(a) for a in ag['script']])} 0%nat false 0%Q [] [] {cnat(n)} [])"
     draws = clist([f"({cbool(e)}, {cnat(c)})" for e, c in ag["draws"]])
-    qs = clist([cq(ag["init"])] * n)
-    return f"(mkag [] 0%nat true {cq(ag['alpha'])} {qs} {draws} {cnat(n)})"
+    qs = clist([cq(float(ag["init"]))] * n)
+    return f"(mkag [] 0%nat true {cq(float(ag['alpha']))} {qs} {draws} {cnat(n)} {clist([cnat(0)] * n)})"
+
+
+def fq(x):
+    """Rational literal of a float; a non-finite value (only a broken tree produces one) becomes a sentinel no model value equals."""
+    return cq(x) if np.isfinite(x) else cq(-(2.0**200) - 12345.0)
 
 
 def emit(cfg, o, repaired=True):
-    sched = clist(list(o["sched"]))
-    masks = clist([cnat(m) for m in o["masks"]])
-    ops = clist([cnat(OPCODE.get(x, 99)) for x in o["ops"]])
+    # the calibration thread's steps inside a rejected request (one read of the flag on a correct tree) are not steps of the model's
+    # session list: they are deleted, and what remains has to be a run of `step` - i.e. the rejected request moved nothing
+    # (theorem C10_rejected_request_moves_nothing is the model's side of this)
+    drop = set(o.get("strip", []))
+    keep = [k for k in range(len(o["sched"])) if k not in drop]
+    sched = clist([o["sched"][k] for k in keep])
+    masks = clist([cnat(o["masks"][k]) for k in keep])
+    ops = clist([cnat(OPCODE.get(o["ops"][k], 99)) for k in keep])
     ex = clist([f"({cnat(b)}, {cnat(a)})" for b, a in o["executed"]])
-    le = clist([f"({cnat(a)}, {cq(r)}, {copt(s, cnat)})" for a, r, s in o["learned"]])
-    oq = clist([copt(x, cq) for x in o["oq_end"]])
-    qv = clist([cq(x) for x in o.get("qvals", [])])
+    le = clist([f"({cnat(a)}, {fq(r)}, {copt(s, cnat)})" for a, r, s in o["learned"]])
+    oq = clist([copt(x, fq) for x in o["oq_end"]])
+    qv = clist([fq(x) for x in o.get("qvals", [])])
     obs = (f"(mkobs {cbool(o['finished'])} {cnat(o['final_mask'])} {ex} {le} {clist([cnat(a) for a in o['aq_end']])} {oq} "
-           f"{cbool(o['agent_alive_at_end'])} {cbool(o['flag'])} {copt(o['cbl'], cq)} {copt(o['best'], cq)} "
+           f"{cbool(o['agent_alive_at_end'])} {cbool(o['flag'])} {copt(o['cbl'], fq)} {copt(o['best'], fq)} "
            f"{cnat(len(o['policy']))} {qv})")
     return (f"(mkcase {cbool(repaired)} {cnat(cfg['nsam'])} {cnat(cfg['halton'])} {clist([cq(x) for x in cfg['losses']])} "
             f"{clist([cnat(n) for n in cfg['sessions']])} {_agent_lit(cfg)} {sched} {masks} {ops} {obs})")
 
 
 # ------------------------------------------------------------------------------------------ direct oracle
-def expected_rewards(losses):
-    """Reward of batch k >= 1 from the losses alone (published rule: relative improvement of the running best)."""
+def expected_rewards(losses, boots=(0,)):
+    """Reward of batch k >= 1 from the losses alone (published rule: relative improvement of the running best); `boots` = the
+    batches that are the first one of a scheduler (bootstrap batch: the running best starts there)."""
     out, best = {}, None
     for k, l in enumerate(losses):
-        if best is None:
+        if best is None or k in boots:
             best = l
             continue
         nb = min(best, l)
@@ -255,9 +421,20 @@ def oracle(cfg, o, ref):
     if o["a_exc"]:
         fails.append(("agent-thread-died", o["a_exc"][0]))
     exe = o["executed"]
-    chosen = [(b, a) for b, a in exe if b >= 1]  # batch 0 is the bootstrap batch, not chosen by the agent
-    if exe and exe[0] != (0, cfg["halton"]):
-        fails.append(("bootstrap", f"first batch ever ran sampler {exe[0][1]}, not the bootstrap sampler"))
+    boots = set(o.get("boots", [0]))  # first batch of a scheduler = bootstrap batch, not chosen by the agent
+    chosen = [(b, a) for b, a in exe if b not in boots]
+    wrong_boot = [(b, a) for b, a in exe if b in boots and a != cfg["halton"]]
+    if wrong_boot:
+        fails.append(("bootstrap", f"first batch of a scheduler (batch {wrong_boot[0][0]}) ran sampler {wrong_boot[0][1]}, not the bootstrap sampler"))
+    for r in o.get("rejects", []):
+        if r["raised"] is None:
+            fails.append(("request-not-rejected", f"{r['kind']} (at step {r['at_step']}) was accepted"))
+            break
+        if r["moved"]:
+            fails.append(("rejected-request-moved-state", f"{r['kind']} (at step {r['at_step']}) raised {r['raised']} but: " + "; ".join(r["moved"])))
+            break
+    if o.get("spurious_started"):
+        fails.append(("second-agent-thread", "an agent thread was started while the session's agent thread was running"))
     if any(not 0 <= a < cfg["nsam"] for _, a in exe):
         fails.append(("invalid-index", "a sampler index outside the line-up was used"))
     term = [(a, r) for a, r, s in o["learned"] if s is None]
@@ -273,10 +450,11 @@ def oracle(cfg, o, ref):
                                        f"sampler {dict(chosen).get(wrong[0][0])}"))
     if o["finished"] and not wrong and not term and real != chosen:
         fails.append(("learn-once", f"batches chosen by the agent {chosen} but learn calls for {real}"))
-    er = expected_rewards(cfg["losses"])
+    er = expected_rewards(cfg["losses"], boots)
+    tol = cfg.get("reward_tol", 0.0)  # 0 wherever the arithmetic is exact (dyadic losses); see design.d/C10.md for the inexact ones
     for a, r, s in o["learned"]:
-        if s is not None and er.get(s) is not None and r != er[s]:
-            fails.append(("wrong-reward", f"batch {s}: reward {r}, expected {er[s]} from that batch's outcome"))
+        if s is not None and er.get(s) is not None and not (r == er[s] or abs(r - er[s]) <= tol * abs(er[s])):
+            fails.append(("wrong-reward", f"batch {s}: reward {r!r}, expected {er[s]!r} from that batch's outcome"))
             break
     for i, e in enumerate(o["session_ends"]):
         if e["aq"] or e["oq"]:
@@ -303,6 +481,21 @@ def loss_seq(kind, n):
         return [1.0, 0.0, -1.0, -2.0, -2.0, -4.0][:n]
     if kind == "flat":
         return [64.0] + [64.0 + i for i in range(1, n)]
+    # ---- round 4 (all dyadic, and every improvement starts from a power of two, so that (c - b) / c is exact)
+    if kind == "near":      # one improvement of relative size 2^-20 (inside np.isclose's default rtol), then none
+        return [4096.0, 4096.0 - 2.0**-8, 4096.0 - 2.0**-9, 4096.0, 4097.0, 4096.0 - 2.0**-8][:n]
+    if kind == "far":       # far from the origin relative to the spread: 2^27 level, O(1) variation (relative 2^-27)
+        return [2.0**27, 2.0**27 - 1.0, 2.0**27 - 0.5, 2.0**27, 2.0**27 + 1.0, 2.0**27 - 1.0][:n]
+    if kind == "tiny":      # below np.isclose's default atol 1e-8
+        return [2.0 ** (-40 - i) for i in range(n)]
+    if kind == "huge":
+        return [2.0 ** (60 - i) for i in range(n)]
+    if kind == "negative":  # all negative, never crossing zero: the published rule gives (c - b) / c = -1 for a halving
+        return [-(2.0 ** i) for i in range(n)]
+    if kind == "negzero":   # signed zeros: no improvement, no division
+        return [-0.0, 0.0, -0.0, 0.0, 0.0, -0.0][:n]
+    if kind == "inexact":   # not dyadic: oracle only, with the tolerance of cfg["reward_tol"]
+        return [3.0, 1.7, 1.1, 0.3, 0.29, 0.1, 0.07][:n]
     return [float(2 ** (12 - (i // 2) * 2)) + (0.0 if i % 2 == 0 else 3.0) for i in range(n)]  # improves every other batch
 
 
@@ -334,6 +527,7 @@ def gen_configs(chk):
                              "draws": [[rng.below(3) == 0, rng.below(nsam)] for _ in range(rng.randint(2, 5))]}
                 cfgs.append({"sessions": sh, "losses": loss_seq(lk, max(n, 1)), "loss_kind": lk, "nsam": nsam, "halton": hal,
                              "agent": agent, "oracle": True})
+    ngrid = len(cfgs)
     # losses that are all zero (reference loss 0: the reward rule must not divide)
     for sh in ([3], [2, 1]):
         cfgs.append({"sessions": sh, "losses": loss_seq("zero", 3), "loss_kind": "zero", "nsam": 2, "halton": rng.below(2),
@@ -355,7 +549,111 @@ def gen_configs(chk):
     # an agent that returns an index outside the action space: its thread dies (model validation only, no oracle)
     cfgs.append({"sessions": [2, 1], "losses": loss_seq("improving", 3), "loss_kind": "improving", "nsam": 2, "halton": 0,
                  "agent": {"kind": "script", "script": [1, 2, 0]}, "oracle": False})
-    return cfgs
+    # the special and the round-4 configurations first, the grid of shapes last: the global cap on the number of schedules (reached
+    # at the thorough tier) then cuts into the largest shapes of the grid and never drops a special configuration
+    return cfgs[ngrid:] + sweep_configs(chk) + cfgs[:ngrid]
+
+
+def sweep_configs(chk):
+    """Round 4 (generator sweep): representations of the loss object and of the agent's action, line-up containers, sizes at the
+    edges, rejected requests, reassigned attributes, scheduler rebuilt on a used environment, sample-average / boundary-epsilon
+    agents, loss scales.  Every configuration is enumerated over ALL its interleavings like the others."""
+    rng = chk.rng
+    quick = chk.tier == "quick"
+    out = []
+
+    def script(nsam, act_rep="int"):
+        return {"kind": "script", "script": [rng.below(nsam) for _ in range(rng.randint(3, 5))], "act_rep": act_rep}
+
+    def add(dim, sessions, lk, nsam=None, agent=None, multi=0, **kw):
+        n = max(sum(sessions), 1)
+        nsam = nsam or rng.randint(2, 3)
+        cfg = {"sessions": list(sessions), "losses": loss_seq(lk, n), "loss_kind": lk, "nsam": nsam, "halton": rng.below(nsam),
+               "agent": agent or script(nsam), "oracle": True, "dim": dim}
+        cfg.update(kw)
+        if not cfg.get("halton_in", True):
+            cfg["halton"] = nsam - 1
+        if cfg.get("loss_rep") == "f32":
+            cfg["losses"] = [float(np.float32(v)) for v in cfg["losses"]]
+        if multi:
+            cfg["batches"] = []
+            fixed = rng.randint(1, multi)  # the re-used buffer has one length for the whole run
+            for m in cfg["losses"]:
+                extras = [m, m + abs(m), m + 2 * abs(m) + 1.0]
+                vals = [m] + [rng.choice(extras) for _ in range(fixed if cfg.get("loss_rep") == "reuse" else rng.randint(1, multi))]
+                rng.shuffle(vals)
+                cfg["batches"].append(vals)
+        out.append(cfg)
+        return cfg
+
+    # (1) representation of the losses handed to update(), of the action returned by the agent, of the line-up
+    shapes = [[2], [1, 2], [2, 1], [3]] + ([] if quick else [[2, 2], [1, 1, 2]])
+    kinds_for = {"i64": ["improving", "negative", "flat"], "i32": ["improving", "negative", "flat"],
+                 "f32": ["improving", "near", "tiny", "negative", "flat", "huge"]}
+    all_kinds = ["improving", "near", "far", "tiny", "huge", "negative", "flat", "mixed"]
+    k = rng.below(8)
+    for rep in LOSS_REPS:
+        for _ in range(1 if quick else 2):
+            nsam = rng.randint(2, 4)
+            kinds = kinds_for.get(rep, all_kinds)
+            add("representation", shapes[k % len(shapes)], kinds[k % len(kinds)], nsam=nsam,
+                agent=script(nsam, ACT_REPS[k % len(ACT_REPS)]), multi=0 if rep == "0d" else 3, loss_rep=rep,
+                lineup=("list", "tuple")[k % 2], halton_in=bool((k // 2) % 2))
+            k += 1
+    add("representation", [3], "negzero", nsam=2, loss_rep="f64")
+    # not dyadic (and float32): judged by the oracle alone
+    add("representation", [2, 1], "inexact", multi=2, loss_rep="f32", model=False, reward_tol=1e-10)
+    add("representation", [3], "inexact", multi=2, loss_rep="f64", model=False, reward_tol=1e-10)
+    # (4) sizes at the edges: a line-up of one, of more than ten
+    add("size", [2, 1], "improving", nsam=1)
+    add("size", [1, 2], "mixed", nsam=12, agent={"kind": "script", "script": [11, 10, 2, 0], "act_rep": "int64"}, lineup="tuple")
+    add("size", [2], "flat", nsam=5, halton_in=False)
+    # (6) rejected requests: end_session outside a session (before the first, between two, after the last), start_session inside one
+    add("rejected", [1, 2], "improving", events=[[0, "bad_end"], [1, "bad_end"], [2, "bad_end"]])
+    add("rejected", [2, 1], "flat", events=[[1, "bad_end"]], agent=None)
+    add("rejected", [2], "improving", spurious_start=[[0, 0]])
+    add("rejected", [2], "mixed", spurious_start=[[0, 1]])
+    add("rejected", [1, 2], "improving", spurious_start=[[1, 1]], events=[[1, "bad_end"]])
+    if not quick:
+        add("rejected", [2, 2], "mixed", spurious_start=[[0, 1], [1, 0]], events=[[2, "bad_end"]])
+        add("rejected", [3], "improving", spurious_start=[[0, 2]])
+    # a failing batch, then a rejected request, then normal sessions (oracle only: the model has no fault step)
+    add("rejected", [2, 2], "improving", fault_at=[1], events=[[1, "bad_end"]], model=False)
+    # a failing batch, then an empty session, then a normal one
+    add("sequence", [2, 0, 2], "improving", fault_at=[1], model=False)
+    add("sequence", [1, 0, 2], "mixed", fault_at=[0], model=False)
+    if not quick:
+        add("size", [1, 1, 1, 1], "improving")      # more sessions than the property's quantifier lists
+        add("size", [4], "mixed")
+    # (3) attributes reassigned after construction: random_state between sessions (re-seeds samplers, agent and environment)
+    add("reassigned", [2, 2], "improving", events=[[1, "reseed"]])
+    add("reassigned", [1, 2], "mixed", events=[[0, "reseed"], [1, "reseed"]])
+    # (2) object reuse: a further scheduler built on the line-up, agent and environment that an earlier one has used
+    add("reuse", [2, 2], "improving", events=[[1, "rebuild"]], model=False)
+    add("reuse", [1, 1, 2], "mixed", events=[[2, "rebuild"]], model=False, halton_in=False, nsam=3)
+    add("reuse", [2, 1, 1], "flat", events=[[1, "rebuild"], [2, "rebuild"]], model=False)
+    # (5) the epsilon-greedy agent outside its defaults: sample-average step (alpha = -1), epsilon 0 / 1 / draws equal to epsilon,
+    # integer-typed options, attributes assigned after construction
+    def greedy(nsam, alpha, eps, init, assign_after=False):
+        n = rng.randint(3, 6)
+        us = [rng.choice([0.0, 0.25, 0.5, 0.75]) for _ in range(n)]
+        return {"kind": "greedy", "alpha": alpha, "init": init, "eps": eps, "us": us, "assign_after": assign_after,
+                "draws": [[u < eps, rng.below(nsam)] for u in us]}
+
+    for sh, lk, alpha, eps, init, aa in ([[1, 2], "improving", -1, 0.5, 0.0, False], [[2, 2], "mixed", -1, 0.25, 1, False],
+                                        [[2, 1], "improving", 0.5, 0.0, 0.0, False], [[1, 2], "mixed", 1, 1.0, 0, False],
+                                        [[2, 2], "improving", 0.25, 0.5, 1.0, True], [[3], "improving", -1.0, 0.75, 0.0, True]):
+        for _try in range(30):
+            nsam = rng.randint(2, 3)
+            cfg = add("agent-options", sh, lk, nsam=nsam, agent=greedy(nsam, alpha, eps, init, aa))
+            if alpha != -1:
+                break
+            # sample-average: 1/count has to be exact in binary for the rational model (counts 1, 2, 4, 8); the counts are the same
+            # under every schedule of a correct tree, so one run decides
+            if all(c in (0, 1, 2, 4, 8) for c in run_schedule(cfg, [])["counts"]):
+                break
+            out.pop()
+    return out
 
 
 # ------------------------------------------------------------------------------------------ the exchange inside a Calibrator
@@ -415,110 +713,178 @@ def calibrator_level(chk):
     return out, stats
 
 
+def _known_input(cfg, o, clause):
+    """The input of the known finding `zero-reference-loss`: a best loss of exactly 0 improved upon, get_reward dividing by it."""
+    died = (o.get("a_exc") or [""])[0]
+    return bool(cfg.get("loss_kind") == "zero-cross" and "ZeroDivisionError" in died
+                and clause in ("agent-thread-died", "deadlock", "leftover-message", "learn-once"))
+
+
+def coq_mismatches_grouped(chk, name, check_fn, lits, shard=300, group=5, retries=2):
+    """chk.coq_mismatches over at most `group` shards at a time (bounds the memory of the concurrent coqc processes; about 0.4 GB
+    each) and with a shard whose coqc was KILLED (rc -9 / 137: the kernel's out-of-memory killer on a shared machine) re-run up
+    to `retries` times.  Any other error, and a kill that persists, is reported as before (the check fails closed)."""
+    bad, errors = [], []
+    step = shard * group
+    for k in range(0, len(lits), step):
+        for attempt in range(retries + 1):
+            b, e = chk.coq_mismatches(f"{name}g{k // step}", IMPORTS, check_fn, CASE_T, lits[k:k + step], shard=shard)
+            killed = [x for x in e if "rc=-9" in x or "rc=137" in x]
+            if not killed or attempt == retries:
+                break
+            chk.notes.append(f"coqc killed by the system on {len(killed)} shard(s) of group {k // step}; re-run")
+            time.sleep(5 * (attempt + 1))
+        bad += [k + i for i in b]
+        errors += e
+    return bad, errors
+
+
+def _records(cfg, obs, complete, dt, keep_all=False):
+    """What the main process needs of the runs of one configuration.  Built in the worker process: the full observations of a
+    thorough run (200000 schedules) take more than 1 GB, which the shared build machine does not always have.  Per schedule: the
+    oracle's verdict, the Coq literal, and the observation itself only for the reference schedule and the failing ones."""
+    use_model = cfg.get("model", True)
+    if not use_model:
+        obs = obs[:400]
+    ref = obs[0] if obs else None
+    recs = []
+    for j, o in enumerate(obs):
+        fails = oracle(cfg, o, None if o is ref else ref) if cfg.get("oracle", True) else []
+        recs.append({"sched": o["sched"], "nontrivial": 3 in o["masks"], "unreleased": o["unreleased_threads"],
+                     "fails": [(c, t, _known_input(cfg, o, c)) for c, t in fails],
+                     "lit": emit(cfg, o, True) if use_model else None,
+                     "obs": o if (fails or j == 0 or keep_all) else None})
+    return recs, complete, dt
+
+
 def _explore_job(args):
     cfg, cap = args
     t0 = time.time()
     obs, complete = explore(cfg, cap)
-    return obs, complete, time.time() - t0
+    return _records(cfg, obs, complete, time.time() - t0)
 
 
 def run(chk, replay=None):
     chk.proof_gate()
     quick = chk.tier == "quick"
-    t_impl = time.time()
+    pool = None
     if replay:
         rc = json.loads(open(replay).read())["case"]
         cfgs = [rc["cfg"]]
-        results = [([run_schedule(rc["cfg"], list(rc["schedule"]), lenient=True)], True, 0.0)]
+        obs = [run_schedule(rc["cfg"], list(rc["schedule"]), lenient=True)]
         if rc.get("reference_schedule"):
-            results[0][0].insert(0, run_schedule(rc["cfg"], list(rc["reference_schedule"]), lenient=True))
+            obs.insert(0, run_schedule(rc["cfg"], list(rc["reference_schedule"]), lenient=True))
+        results = [_records(rc["cfg"], obs, True, 0.0, keep_all=True)]
     else:
         cfgs = gen_configs(chk)
         per_cfg_cap = 600 if quick else 20000
         import multiprocessing as mp
 
-        with mp.get_context("fork").Pool(16) as pool:
-            results = pool.map(_explore_job, [(c, per_cfg_cap) for c in cfgs], chunksize=1)
-    total_cap = 6000 if quick else 200000
-    cases, lits, owner, extra = [], [], [], []
+        pool = mp.get_context("fork").Pool(16)
+        results = pool.imap(_explore_job, [(c, per_cfg_cap) for c in cfgs], chunksize=1)   # in order, streamed
+    total_cap = 14000 if quick else 200000
+    group = 5 if quick else 12
+    chunk = 300 * group                      # Coq evaluates the schedules chunk by chunk while the enumeration goes on
+    stride = 10 if quick else 500            # sample for the pre-repair diagnostic
     exhaustive = True
     stats = Counter()
-    for ci, (cfg, (obs, complete, _dt)) in enumerate(zip(cfgs, results)):
+    nmodel = unreleased = flushes = 0
+    keys_n = nontrivial_n = max_per_cfg = 0
+    impl_cpu = 0.0
+    pending, pending_meta, bad, errors, sample_lits = [], [], set(), [], []
+    worst, corr, samples, printed = {}, None, [], []
+
+    def flush():
+        nonlocal corr, flushes
+        if not pending:
+            return
+        base = nmodel - len(pending)
+        b, e = coq_mismatches_grouped(chk, f"C10f{flushes}", "check_case", pending, group=group)
+        flushes += 1
+        errors.extend(e)
+        for j in b:
+            bad.add(base + j)
+            size, ci, sched, ref_sched, failing = pending_meta[j]
+            if not failing and (corr is None or size < corr[0]):
+                corr = (size, ci, sched, ref_sched)
+        pending.clear()
+        pending_meta.clear()
+
+    for ci, (recs, complete, dt) in enumerate(results):
+        cfg = cfgs[ci]
+        impl_cpu += dt
+        max_per_cfg = max(max_per_cfg, len(recs))
         if not complete:
             exhaustive = False
-        if not cfg.get("model", True):
-            extra += [(ci, o) for o in obs[:400]]
-            continue
-        for o in obs:
-            if len(cases) >= total_cap:
+        ref_sched = recs[0]["sched"] if recs else None
+        if ci in (0, len(cfgs) // 3, (2 * len(cfgs)) // 3, len(cfgs) - 1) and recs and recs[0]["obs"]:
+            samples.append({"cfg": cfg, "schedule": recs[0]["sched"], "executed": recs[0]["obs"]["executed"],
+                            "learned": recs[0]["obs"]["learned"]})
+        use_model = cfg.get("model", True)
+        for j, r in enumerate(recs):
+            if use_model and nmodel >= total_cap:
                 exhaustive = False
                 break
-            cases.append(o)
-            owner.append(ci)
-            lits.append(emit(cfg, o, True))
-    impl_wall = time.time() - t_impl
-    bad, errors = chk.coq_mismatches("C10", IMPORTS, "check_case", CASE_T, lits, shard=600)
-    bad = set(bad)
+            unreleased += r["unreleased"]
+            case = {"cfg": cfg, "schedule": r["sched"], "reference_schedule": ref_sched if j else None}
+            if replay:
+                printed.append(r["obs"])
+            if use_model:
+                i = nmodel
+                nmodel += 1
+                pending.append(r["lit"])
+                size = (len(r["sched"]), sum(cfg["sessions"]), i)
+                pending_meta.append((size, ci, r["sched"], case["reference_schedule"], bool(r["fails"])))
+                if i % stride == 0 and len(sample_lits) < 400:
+                    sample_lits.append(r["lit"])
+                keys_n += 1
+                nontrivial_n += int(r["nontrivial"])
+                stats[f"sessions={len(cfg['sessions'])}"] += 1
+                stats[f"agent={cfg['agent']['kind']}"] += 1
+                stats[f"losses={cfg['loss_kind']}"] += 1
+                if cfg.get("dim"):
+                    stats[f"sweep:{cfg['dim']}"] += 1
+                    stats[f"sweep:loss_rep={cfg.get('loss_rep', 'f64')}"] += 1
+                    stats[f"sweep:act_rep={cfg['agent'].get('act_rep', 'int')}"] += 1
+                stats[f"steps={10 * (len(r['sched']) // 10)}-{10 * (len(r['sched']) // 10) + 9}"] += 1
+            else:
+                # oracle-only configurations (injected batch faults, rebuilt scheduler, inexact rewards)
+                size = (len(r["sched"]), sum(cfg["sessions"]), 10**9 + ci)
+                stats["fault-configs" if not cfg.get("dim") else f"sweep:{cfg['dim']} (oracle only)"] += 1
+            for clause, text, known in r["fails"]:
+                # the shortest failing schedule per clause, kept separately for the inputs of the known finding: a failure of the
+                # same clause on any other input must not hide behind it
+                wk = (clause, known)
+                if wk not in worst or size < worst[wk][0]:
+                    lit = r["lit"] or "(oracle-only configuration: no model step for an injected batch fault / a rebuilt scheduler / inexact rewards)"
+                    worst[wk] = (size, case, text, [f"{c}: {t}" for c, t, _ in r["fails"]], r["obs"], lit)
+        if len(pending) >= chunk:
+            flush()
+    flush()
+    if pool is not None:
+        pool.close()
+        pool.join()
     # diagnostic only: which of a sample of the runs follow the protocol as it was before the repair
-    sample_idx = list(range(0, len(cases), max(1, len(cases) // 300)))[:400]
-    old_bad, _ = chk.coq_mismatches("C10old", IMPORTS, "check_case_other", CASE_T, [lits[i] for i in sample_idx], shard=600)
-    follows_old = len(sample_idx) - len(old_bad)
-    refs, nontrivial, keys = {}, set(), set()
-    worst, corr = {}, None
-    unreleased = 0
-    for i, o in enumerate(cases):
-        cfg = cfgs[owner[i]]
-        ref = refs.setdefault(owner[i], o)
-        unreleased += o["unreleased_threads"]
-        key = (owner[i], o["sched"])
-        keys.add(key)
-        stats[f"sessions={len(cfg['sessions'])}"] += 1
-        stats[f"agent={cfg['agent']['kind']}"] += 1
-        stats[f"losses={cfg['loss_kind']}"] += 1
-        stats[f"steps={10 * (len(o['sched']) // 10)}-{10 * (len(o['sched']) // 10) + 9}"] += 1
-        if 3 in o["masks"]:
-            nontrivial.add(key)
-        case = {"cfg": cfg, "schedule": o["sched"], "reference_schedule": ref["sched"] if ref is not o else None}
-        fails = oracle(cfg, o, None if ref is o else ref) if cfg.get("oracle", True) else []
-        size = (len(o["sched"]), sum(cfg["sessions"]), i)
-        for clause, text in fails:
-            if clause not in worst or size < worst[clause][0]:
-                worst[clause] = (size, i, case, text, fails)
-        if not fails and i in bad and (corr is None or size < corr[0]):
-            corr = (size, i, case)
-    # oracle-only configurations (injected batch faults)
-    xrefs = {}
-    for ci, o in extra:
-        cfg = cfgs[ci]
-        ref = xrefs.setdefault(ci, o)
-        stats["fault-configs"] += 1
-        case = {"cfg": cfg, "schedule": o["sched"], "reference_schedule": ref["sched"] if ref is not o else None}
-        fails = oracle(cfg, o, None if ref is o else ref)
-        size = (len(o["sched"]), sum(cfg["sessions"]), len(cases) + len(xrefs))
-        for clause, text in fails:
-            if clause not in worst or size < worst[clause][0]:
-                cases.append(o)
-                owner.append(ci)
-                lits.append("(oracle-only configuration with an injected batch fault)")
-                worst[clause] = (size, len(cases) - 1, case, text, fails)
-    for clause, (_, i, case, text, fails) in sorted(worst.items()):
+    old_bad, _ = coq_mismatches_grouped(chk, "C10old", "check_case_other", sample_lits)
+    follows_old = len(sample_lits) - len(old_bad)
+    for (clause, known), (_, case, text, allf, o, lit) in sorted(worst.items()):
         desc = {"kind": "oracle", "clause": clause}
-        died = (cases[i].get("a_exc") or [""])[0]
-        if (case["cfg"].get("loss_kind") == "zero-cross" and "ZeroDivisionError" in died
-                and clause in ("agent-thread-died", "deadlock", "leftover-message", "learn-once")):
+        if known:
             desc["input"] = "zero-reference-loss"  # what the known finding is identified by; any other clause is reported as usual
         chk.violation(desc,
-                      {"failed": f"oracle:{clause}: {text}", "all": [f"{c}: {t}" for c, t in fails], "case": case,
-                       "observed": cases[i], "coq_case": lits[i],
-                       "follows_pre_repair_protocol_sample": f"{follows_old}/{len(sample_idx)}",
+                      {"failed": f"oracle:{clause}: {text}", "all": allf, "case": case,
+                       "observed": o, "coq_case": lit,
+                       "follows_pre_repair_protocol_sample": f"{follows_old}/{len(sample_lits)}",
                        "note": "schedule = thread chosen at every synchronisation point (M calibration thread, A agent thread), "
                                "shortest failing schedule found for this clause; re-run with bin/check C10 --replay <this file>"})
     if corr is not None:
-        _, i, case = corr
+        _, ci, sched, ref_sched = corr
+        o = run_schedule(cfgs[ci], list(sched), lenient=True)   # deterministic: the observation is re-made for the report
         chk.violation({"kind": "correspondence", "name": "step"},
                       {"failed": "correspondence:step (the tree does not follow the protocol of coq/Model/RLProto.v `step` on this "
-                                 "schedule; the property oracle found no failing input)", "case": case, "observed": cases[i],
-                       "coq_case": lits[i], "disagreeing_cases": len(bad)}, no_input=True)
+                                 "schedule; the property oracle found no failing input)",
+                       "case": {"cfg": cfgs[ci], "schedule": sched, "reference_schedule": ref_sched}, "observed": o,
+                       "coq_case": emit(cfgs[ci], o, True), "disagreeing_cases": len(bad)}, no_input=True)
     for e in errors:
         chk.violation({"kind": "correspondence", "name": "coqc"}, {"failed": "correspondence:coqc", "detail": e}, no_input=True)
     cal_fails, cal_stats = ([], Counter()) if replay else calibrator_level(chk)
@@ -537,28 +903,30 @@ def run(chk, replay=None):
     if unreleased:
         chk.notes.append(f"{unreleased} controlled threads could not be released")
     if replay:
-        for o in cases:
+        for o in printed:
             print(json.dumps({k: o[k] for k in ("sched", "executed", "learned", "session_ends", "deadlock")}, default=str))
     cov = {
-        "evaluations": len(cases), "distinct": len(keys), "distinct_nontrivial": len(nontrivial),
+        "evaluations": nmodel, "distinct": keys_n, "distinct_nontrivial": nontrivial_n,
         "rule": "every maximal interleaving at the synchronisation points (queue put/get/get_nowait, _stopped read/write, thread "
                 "start/join) of the real RLScheduler + MABCalibrationEnv + logging agent, enumerated depth-first with replay by a "
                 "cooperative scheduler, for every list of 1-2 sessions of 1-2 batches (quick) / 1-3 of 1-3 (thorough) plus sessions "
                 "with 0 batches, improving / non-improving (/ mixed) losses, a scripted agent and the real MABEpsilonGreedy with "
-                "recorded draws; each schedule is re-executed by the Coq model `step`, comparing the enabled set before every step "
+                "recorded draws, plus the round-4 configurations (representations of the loss object / action / line-up, loss scales, "
+                "rejected start_session / end_session requests, random_state reassigned between sessions, sample-average and "
+                "boundary-epsilon agents; a scheduler rebuilt on a used environment, failing batches and inexact rewards are judged "
+                "by the oracle alone); each schedule is re-executed by the Coq model `step`, comparing the enabled set before every step "
                 "and the final logs, queue contents, thread liveness, flag, reference losses, agent state; non-trivial = some "
                 "decision had both threads enabled; distinct = distinct (configuration, schedule)",
-        "samples": [{"cfg": cfgs[owner[i]], "schedule": cases[i]["sched"], "executed": cases[i]["executed"],
-                     "learned": cases[i]["learned"]} for i in range(0, len(cases), max(1, len(cases) // 3))][:4],
-        "traces_validated_against_impl": len(cases) - len(bad), "model_impl_disagreements": len(bad),
+        "samples": samples[:4],
+        "traces_validated_against_impl": nmodel - len(bad), "model_impl_disagreements": len(bad),
         "distribution": dict(sorted(stats.items())),
         "exhaustive": bool(exhaustive and not replay),
         "exhaustive_part": "all interleavings of every listed configuration" if exhaustive else
                            "enumeration stopped at the cap for at least one configuration",
         "configurations": len(cfgs),
-        "schedules_per_configuration_max": max((len(r[0]) for r in results), default=0),
-        "sample_following_pre_repair_protocol": f"{follows_old}/{len(sample_idx)}",
-        "implementation_wall_s": round(impl_wall, 1),
+        "schedules_per_configuration_max": max_per_cfg,
+        "sample_following_pre_repair_protocol": f"{follows_old}/{len(sample_lits)}",
+        "implementation_cpu_s": round(impl_cpu, 1),
     }
     return chk.finish(
         cov,
